@@ -6,9 +6,8 @@ EXPLANATION = (
     "partial, two halves. PROVED in Coq (coq/Properties_C08.v, closed under the global context): (1) a reference syntax written from RFC 8259 and from XML 1.0 "
     "(JxJsonSpec.v, JxXmlSpec.v): json_parse (json_print d) = d and xml_parse (xml_print x) = x for every well-formed DOM, white space between JSON tokens is "
     "irrelevant, the parsers are total (never out of fuel); for JSON also the converse (JxJsonSound.v): the accepted texts are exactly the RFC 8259 renderings of the returned DOM "
-    "(free white space, the four spellings of a string character, the number lexeme carried by the DOM), so the reference parser accepts nothing else; the same for the XML subset (JxXmlSound.v: accepted texts = the generative description, both directions), with two "
-    "places, stated as theorems, where that description is wider than XML 1.0 (white space around the document element spelled by references / CDATA; references inside the "
-    "XML declaration); loading does not depend on the order of members at any depth for every target type incl. std::map (JxMemberOrder.v); validation error paths "
+    "(free white space, the four spellings of a string character, the number lexeme carried by the DOM), so the reference parser accepts nothing else; the same for the XML subset (JxXmlSound.v: accepted texts = the generative description, both directions; strict about Misc and the XML declaration; "
+    "DOCTYPE is outside the subset); the options of both archives reach the third-party writers as configured (T_C08_options_passed, T_C08_xml_options_passed, J47 as the stated exception); loading does not depend on the order of members at any depth for every target type incl. std::map (JxMemberOrder.v); validation error paths "
     "(JxPathModel.v, JxPathProofs.v): what GetPath of the JSON scopes yields for every nesting as an explicit function of the location, equal to the RFC 6901 pointer outside "
     "the defect class (no sequence on the way, plain names) and refuted inside it (J48, J49); (2) theorems about a hand-written model of the adapter logic of rapidjson_archive.h / pugixml_archive.h "
     "(JxModel.v): which DOM is built, how a DOM is read back, what Finalize does with a writer failure. VALIDATED PER DOCUMENT, not proved: RapidJSON 1.1.0 and pugixml "
